@@ -25,16 +25,31 @@ import (
 type PubNamer struct {
 	toName map[string]string // side-specific id -> canonical name
 	toID   map[string]string // canonical name -> side-specific id
+	toRealm map[string]string // canonical name -> realm (incarnation) key it was seen in
 	n      int
 }
 
 func NewPubNamer() *PubNamer {
-	return &PubNamer{toName: map[string]string{}, toID: map[string]string{}}
+	return &PubNamer{toName: map[string]string{}, toID: map[string]string{}, toRealm: map[string]string{}}
 }
 
 func (p *PubNamer) ID(name string) string {
 	if id, ok := p.toID[name]; ok {
 		return id
+	}
+	return "0"
+}
+
+// IDIn resolves a publication name for an op in the given realm.  The
+// model's publication ids are per-realm counters and collide across realms
+// (the router's are random); a name that belongs to another realm must not
+// resolve to an id that also exists here.
+func (p *PubNamer) IDIn(name string, realmKey int) string {
+	if id, ok := p.toID[name]; ok {
+		if p.toRealm[name] == fmt.Sprint(realmKey) {
+			return id
+		}
+		return "999999"
 	}
 	return "0"
 }
@@ -200,6 +215,10 @@ func CanonOp(obs []Obs, left []int, env *canonEnv, namer *PubNamer, realmOf func
 		name := fmt.Sprintf("P%d", namer.n)
 		namer.toName[id] = name
 		namer.toID[name] = id[strings.IndexByte(id, ':')+1:]
+		if namer.toRealm == nil {
+			namer.toRealm = map[string]string{}
+		}
+		namer.toRealm[name] = id[:strings.IndexByte(id, ':')]
 	}
 	out := map[int][]string{}
 	for _, it := range items {
